@@ -32,4 +32,6 @@ var CommonAssumptions = []string{
 	"lock identity is per (type, field), not per instance",
 	"third-party libraries behave as documented (kbucket NearestPeers and go-libp2p-xor ClosestN nearest-first; protobuf-go never yields nil elements in repeated message fields; MessageSender.SendRequest returns a non-nil message with a nil error; context, sync, go-datastore)",
 	"the frozen instance tables in the rule sources were confirmed by reading the pinned tree",
+	"a local variable assigned exactly once is read as its defining expression; fields and never-reassigned variables read by that expression are taken to be unchanged between the definition and the use",
+	"a function, field, parameter or local whose pinned name disappeared is identified with the single new name of the same owner and type (canonical naming); ambiguous cases are not mapped and leave the rule undecided",
 }
